@@ -184,10 +184,16 @@ pub fn exercise(bytes: &[u8], tolerant: bool, cached: bool, password: &[u8]) -> 
         }
         o.rec_plain("scan", guarded(|| f.scan().take(5000).map(|it| match it { Ok(ScanItem::Object(..)) => 1, Ok(ScanItem::Trailer(_)) => 2, Err(_) => 0 }).sum::<usize>()));
     }}}
-    if cached {
-        if let Some(f) = o.rec("load", guarded(|| FileOptions::cached().password(password).parse_options(opts()).load(bytes.to_vec()))) { body!(f) }
+    let loaded = if cached {
+        if let Some(f) = o.rec("load", guarded(|| FileOptions::cached().password(password).parse_options(opts()).load(bytes.to_vec()))) { body!(f); true } else { false }
     } else {
-        if let Some(f) = o.rec("load", guarded(|| FileOptions::uncached().password(password).parse_options(opts()).load(bytes.to_vec()))) { body!(f) }
+        if let Some(f) = o.rec("load", guarded(|| FileOptions::uncached().password(password).parse_options(opts()).load(bytes.to_vec()))) { body!(f); true } else { false }
+    };
+    if !loaded {
+        // the recovery scan is for files that do not load: it runs on the bare storage
+        if let Some(st) = o.rec("storage", guarded(|| pdf::file::Storage::with_cache(bytes.to_vec(), opts(), pdf::file::NoCache, pdf::file::NoCache, pdf::file::NoLog))) {
+            o.rec_plain("storage.scan", guarded(|| st.scan().take(5000).map(|it| match it { Ok(ScanItem::Object(..)) => 1, Ok(ScanItem::Trailer(_)) => 2, Err(_) => 0 }).sum::<usize>()));
+        }
     }
     o
 }
